@@ -259,12 +259,13 @@ func checkC06(c *Ctx) {
 	if cp != nil {
 		fcp := NewFlow(p, cp)
 		n := 0
-		for _, s := range callsIn(cp, false, func(cc *ssa.CallCommon) bool {
+		for _, ds := range deepSites(fcp, func(cc *ssa.CallCommon) bool {
 			cal := cc.StaticCallee()
 			return cal != nil && cal.String() == "(*"+modPath+"/internal/proto/clientpb.CommandCache).Get"
-		}) {
+		}, 0) {
 			n++
-			ok := errNilOf(fcp.At(s), func(k string) bool {
+			s := ds.Site
+			ok := errNilOf(ds.Facts, func(k string) bool {
 				return strings.HasPrefix(k, "(*hs/protocol/consensus.Proposer).markProposed(p0, ")
 			})
 			c.Check(ok, "C06.7", "CreateProposal: markProposed before CommandCache.Get", p.Pos(s.Pos()),
